@@ -267,3 +267,33 @@ def closure_functions(F, root, depth=5):
         if k in F.bodies:
             out.add(F.root_of[k])
     return out
+
+
+NEG = {"Lt": "Ge", "Le": "Gt", "Gt": "Le", "Ge": "Lt", "Eq": "Ne", "Ne": "Eq"}
+SYM = {"Lt": "<", "Le": "<=", "Gt": ">", "Ge": ">=", "Eq": "==", "Ne": "!="}
+FLIP = {"<": ">", "<=": ">=", ">": "<", ">=": "<=", "==": "==", "!=": "!="}
+
+
+def cmp_rel(F, c, is_x, is_y):
+    """For a 'cmp' Cond (one outgoing edge of a branch on a comparison) return the relation
+    `X rel Y` that holds when this edge is taken, where is_x / is_y are predicates on the Slice of
+    an operand that identify the two quantities.  None if the edge is not such a comparison."""
+    if c.kind != "cmp" or c.truth is None:
+        return None
+    body = c.body
+    sa = Slice(F, body).operand(c.a)
+    sb = Slice(F, body).operand(c.b)
+    op = c.op if c.truth else NEG[c.op]
+    sym = SYM[op]
+    if is_x(sa) and is_y(sb):
+        return sym
+    if is_y(sa) and is_x(sb):
+        return FLIP[sym]
+    return None
+
+
+def const_operand(o):
+    """literal value of a constant operand as string, else None"""
+    if o is not None and "c" in o:
+        return str(o.get("v", o["c"]))
+    return None
